@@ -160,7 +160,7 @@ Why(v, w) == IF v.why = "" THEN w ELSE v.why
 \* runFunc after runRecoverable returned nil, or `break` when len(vm.calls) == 0: `if vm.panic != nil { return vm.panic }`
 VFinish(v) == [v EXCEPT !.done = IF v.panic # <<>> THEN "panic" ELSE "ok", !.nc = -2]
 \* a Go panic that convertPanic cannot attribute: *fatalError -> VM.Run panics with its msg
-VHostPanic(v, val, w) == [v EXCEPT !.done = "hostpanic", !.val = val, !.nc = -2, !.why = Why(v, w)]
+VHostPanic(v, val, w) == [v EXCEPT !.done = "hostpanic", !.val = val, !.nc = -2, !.why = w]
 
 \* OpPanic -> runRecoverable's recover -> convertPanic (case OpPanic: newPanic) -> runFunc links it.
 \* newPanic reads InstructionInfo[vm.pc], vm.pc being already past the instruction: no position (0, 0).
